@@ -111,6 +111,11 @@ def finish(prop, tier, seed, mod, tasks, results, wall):
     # replay files + verdict lines
     lines = []
     rdir = os.path.join(VERIF, "replays", prop)
+    if os.path.isdir(rdir):
+        # replay files of earlier runs are not evidence for this one
+        for fn in os.listdir(rdir):
+            if fn.endswith(".json"):
+                os.remove(os.path.join(rdir, fn))
     seen_keys = set()
     for v in viol:
         key = (v["harness"], v["obligation"].split("[")[0])
